@@ -98,7 +98,17 @@ func c12Child(a []string) {
 			os.Exit(10)
 		}
 	}()
-	f(l, context.Background(), arg, variant, string(msgb), nil)
+	// the shape of the argument list varies with the cell; it has no bearing on termination
+	var args []any
+	switch (via / 3) % 4 {
+	case 1:
+		args = []any{"k", 1}
+	case 2:
+		args = []any{slog.Attrs{slog.Int("k", 1)}}
+	case 3:
+		args = []any{slog.Int("k", 1)}
+	}
+	f(l, context.Background(), arg, variant, string(msgb), args)
 	os.Stdout.WriteString("RETURNED\n")
 	os.Exit(0)
 }
